@@ -5,9 +5,9 @@ import OxyModel.Model.Source
 /-! Driver for the C04 protocol (see `harness/cmd/c04`): runs `ConnLimit.step` — the definition the
 C04 theorems (and `conn_noninterference`) are about.
 
-    cfg max=<int> [ext=custom|builtin] [slowreject=1] [verbose=0|1] [log=0|1] [hvar=<name>] [hsend=<name>]
-    start <id> <src> [amt=<int>] [err=1]   -> admitted | 429 | rejecting | err 500 | dup
-    finish <id> normal|panic               -> released | rejected-done | unknown
+    cfg max=<int> [ext=custom|builtin|clientip] [slowreject=1] [verbose=0|1] [log=0|1] [hvar=<name>] [hsend=<name>]
+    start <id> <src> [amt=<int>] [err=1] [port=<n>]   -> admitted | 429 | rejecting | err 500 | dup
+    finish <id> normal|panic|panic-err|panic-abort|panic-rt   -> released | rejected-done | unknown
     pstart <n> <src> <prefix>              -> admitted=<a> rejected=<r> | admitted=<a> rejecting=<r> | dup
     inflight <src>                         -> <n>
 
@@ -15,6 +15,11 @@ C04 theorems (and `conn_noninterference`) are about.
 its source label in the header line `hsend: <src>` (both default `X-Src`); the token the limiter sees
 is `Source.headerGet [(hsend, src)] hvar` (the C19 model).  `verbose` / `log` select connlimit's
 `Verbose` / `Logger` options: they only add log lines, the model ignores them.
+
+`ext=clientip`: the stock `client.ip` extractor; `<src>` is the peer's IP text (IPv4, IPv6, IPv6%zone), the
+request's `RemoteAddr` is `JoinHostPort(src, port)` (`port` default 1234, `40000+i` for the i-th arrival of a
+burst) and the token is `Source.extractClientIP` of it (the C19 model).  The `panic-*` modes are panics
+with different values (error, `http.ErrAbortHandler`, a runtime error): every exit releases.
 
 `pstart`: `n` (1..64) simultaneous arrivals of one source, ids `<prefix>0 … <prefix>(n-1)`; the model
 takes them as `n` atomic steps in id order (`ConnLimit.burstEvents`) and prints the counts.
@@ -25,13 +30,20 @@ namespace DriverC04
 
 structure St where
   sys : SysR
-  builtin : Bool
+  builtin : Bool          -- a stock extractor (request.header.* or client.ip): no amt= / err=1
+  clientip : Bool         -- the stock `client.ip` extractor: the source label is the peer's IP text
   hvar : Source.Str
   hsend : Source.Str
 
-/-- the token the configured extractor yields for a client labelled `src` -/
-def St.tok (st : St) (src : String) : String :=
-  if st.builtin then String.ofList (Source.headerGet [(st.hsend, src.toList)] st.hvar) else src
+/-- what the configured extractor yields for a client labelled `src` connecting from `port`:
+    `none` = extractor error -/
+def St.ext (st : St) (src port : String) : Option (String × Int) :=
+  if st.clientip then
+    match Source.extractClientIP (Source.joinHostPort src.toList port.toList) with
+    | .ok (t, a) => some (String.ofList t, a)
+    | .error _ => none
+  else if st.builtin then some (String.ofList (Source.headerGet [(st.hsend, src.toList)] st.hvar), 1)
+  else some (src, 1)
 
 def outStr : OutR → String
   | .base .admitted => "admitted"
@@ -50,44 +62,66 @@ def apply (st : St) (e : Event) : St × String :=
 def inUse (s : SysR) (id : String) : Bool :=
   (findReq s.base.inflight id).isSome || (findRej s.rejecting id).isSome
 
+def isPanic (m : String) : Bool := m == "panic" || m == "panic-err" || m == "panic-abort" || m == "panic-rt"
+
+def burstPort (i : Nat) : String := toString (40000 + i)
+
 def step (st : St) : List String → St × String
   | "start" :: id :: src :: opts =>
-    -- the only optional tokens are amt=<int> and err=1, at most one each, only with the custom extractor
-    let known := opts.all fun t => t.startsWith "amt=" || t == "err=1"
-    if !known || opts.length > 2 || (st.builtin && !opts.isEmpty) then (st, "bad-op") else
+    -- optional tokens: amt=<int>, err=1 (custom extractor only), port=<digits> (client.ip only), at most one each
+    let known := opts.all fun t => t.startsWith "amt=" || t == "err=1" || t.startsWith "port="
+    let stockOk := opts.all fun t => st.clientip && t.startsWith "port="
+    if !known || opts.length > 2 || (st.builtin && !stockOk) || (!st.clientip && (Driver.kv opts "port").isSome) then (st, "bad-op") else
     if opts.contains "err=1" then apply st (.startErr id) else
-    match Driver.kv opts "amt" with
-    | none => apply st (.start id (st.tok src) 1)
-    | some v =>
-      match v.toInt? with
-      | none => (st, "bad-op")
-      | some a => apply st (.start id (st.tok src) a)
-  | ["finish", id, "normal"] => apply st (.finish id .normal)
-  | ["finish", id, "panic"] => apply st (.finish id .panic)
+    let port := (Driver.kv opts "port").getD "1234"
+    if !port.toList.all Char.isDigit then (st, "bad-op") else
+    match st.ext src port with
+    | none => apply st (.startErr id)
+    | some (tok, one) =>
+      match Driver.kv opts "amt" with
+      | none => apply st (.start id tok one)
+      | some v =>
+        match v.toInt? with
+        | none => (st, "bad-op")
+        | some a => apply st (.start id tok a)
+  | ["finish", id, m] =>
+    if m == "normal" then apply st (.finish id .normal)
+    else if isPanic m then apply st (.finish id .panic)     -- whatever the panic value is
+    else (st, "bad-op")
   | ["pstart", n, src, pre] =>
     match n.toNat? with
     | none => (st, "bad-op")
     | some n =>
       if n = 0 || n > 64 then (st, "bad-op") else
-      let evs := burstEvents pre (st.tok src) 1 n
-      if evs.any (fun e => match e with | .start id _ _ => inUse st.sys id | _ => false) then (st, "dup") else
+      -- `ConnLimit.burstEvents` with the token of every arrival computed from its own port
+      let evs := (List.range n).map fun i =>
+        match st.ext src (burstPort i) with
+        | some (tok, a) => Event.start (pre ++ toString i) tok a
+        | none => Event.startErr (pre ++ toString i)
+      if (List.range n).any (fun i => inUse st.sys (pre ++ toString i)) then (st, "dup") else
       let os := outsR st.sys evs
       let a := os.count (.base .admitted)
       let r := os.count (.base .rejected) + os.count .rejecting
+      let e := os.count (.base .extractErr)
       ({ st with sys := runR st.sys evs },
-        "admitted=" ++ toString a ++ (if st.sys.slow then " rejecting=" else " rejected=") ++ toString r)
-  | ["inflight", src] => (st, toString (inflightCount st.sys.base.inflight (st.tok src)))
+        "admitted=" ++ toString a ++ (if st.sys.slow then " rejecting=" else " rejected=") ++ toString r
+          ++ (if e > 0 then " other=" ++ toString e else ""))
+  | ["inflight", src] =>
+    match st.ext src "0" with
+    | some (tok, _) => (st, toString (inflightCount st.sys.base.inflight tok))
+    | none => (st, "0")
   | _ => (st, "bad-op")
 
 def init (f : List String) : St × String :=
   let mx := match Driver.kv f "max" with
     | some v => v.toInt?.getD 0
     | none => 0
-  let b := Driver.kv f "ext" == some "builtin"
+  let ci := Driver.kv f "ext" == some "clientip"
+  let b := Driver.kv f "ext" == some "builtin" || ci
   let hv := ((Driver.kv f "hvar").getD "X-Src").toList
   let hs := ((Driver.kv f "hsend").getD "X-Src").toList
-  if hv.isEmpty || hs.isEmpty then (⟨SysR.init mx false, b, hv, hs⟩, "bad-op") else
-  (⟨SysR.init mx (Driver.kv f "slowreject" == some "1"), b, hv, hs⟩, "ok")
+  if hv.isEmpty || hs.isEmpty then (⟨SysR.init mx false, b, ci, hv, hs⟩, "bad-op") else
+  (⟨SysR.init mx (Driver.kv f "slowreject" == some "1"), b, ci, hv, hs⟩, "ok")
 
 def machine : Driver.Machine St where
   init := init
